@@ -95,10 +95,11 @@ REJECT = {
     'try_assign': "def f(o):\n    try:\n        x = str(o)\n    except Exception:\n        x = ''\n    return x\n",
     'try_narrow_handler': "def f(o):\n    try:\n        return str(o)\n    except ValueError:\n        pass\n    return ''\n",
     'try_finally': "def f(o):\n    try:\n        return str(o)\n    except Exception:\n        pass\n    finally:\n        pass\n    return ''\n",
+    'add_option_str': "def f(e):\n    m = e.__module__\n    return m + '.'\n",
     'kwargs_call': "def f(a):\n    return '{}'.format(a, x=a)\n",
     'default_param': "def f(a=''):\n    return a\n",
 }
-REJECT_TYPES = {'o': 'StrObj', 'a': 'Str', 'n': 'Int', 'xs': 'List Str', 'd': 'FrameD', 'c': 'Callpoint'}
+REJECT_TYPES = {'e': 'ExcType', 'o': 'StrObj', 'a': 'Str', 'n': 'Int', 'xs': 'List Str', 'd': 'FrameD', 'c': 'Callpoint'}
 
 
 def reject_tests(verbose):
@@ -178,7 +179,7 @@ def cases_for(spec, rng, quick):
             yield {'exc_type': rstr(rng, 0, 8), 'exc_msg': rng.choice(['', rstr(rng, 0, 9)])}
         elif q == 'ExceptionInfo.get_formatted':
             yield {'exc_type': rstr(rng, 0, 8), 'exc_msg': rng.choice(['', rstr(rng, 0, 9)]), 'frames': callpoints(rng)}
-        elif q == 'ExceptionInfo.from_exc_info':
+        elif q in ('ExceptionInfo.from_exc_info', 'format_exception_only'):
             yield {'module': rng.choice(['__main__', 'builtins', '', 'pkg.mod', '__main__x', 'Builtins', None, 5,
                                          rstr(rng, 0, 6)]),
                    'qualname': rng.choice(['E', 'Outer.Inner', 'f.<locals>.E', rstr(rng, 0, 6)])}
@@ -217,7 +218,7 @@ def encode(spec, case):
         for p, ln, fn, raw in case['frames']:
             toks += [enc_s(p), str(ln), enc_s(fn), enc_s(raw)]
         return toks
-    if q == 'ExceptionInfo.from_exc_info':
+    if q in ('ExceptionInfo.from_exc_info', 'format_exception_only'):
         return [enc_os(case['module'] if isinstance(case['module'], str) else None), enc_s(case['qualname'])]
     if q == '_some_str':
         return [enc_os(case['value'])]
@@ -266,6 +267,15 @@ def run_python(mod, sn_mod, spec, case):
                 raise cls('x')
             except cls:
                 return mod.ExceptionInfo.from_exc_info(*sys.exc_info()).exc_type
+        if q == 'format_exception_only':
+            # the display name is what precedes ': x\n' in the one line format_exception_only returns
+            cls = type('E', (Exception,), {})
+            cls.__module__ = case['module']
+            cls.__qualname__ = case['qualname']
+            out = mod.format_exception_only(cls, cls('x'))
+            if len(out) != 1 or not out[0].endswith(': x\n'):
+                return 'UNEXPECTED %r' % (out,)
+            return out[0][:-len(': x\n')]
         if q == '_some_str':
             class Obj:
                 def __str__(self_):
@@ -352,6 +362,8 @@ ARMS = {
     if r.isEmpty then some (Src.%s.%s (← decS a) (← decS b) fs) else none
 ''',
     'ExceptionInfo.from_exc_info': '''  | ["%d", m, q] => do some (Src.%s.%s ⟨← decOS m, ← decS q⟩)
+''',
+    'format_exception_only': '''  | ["%d", m, q] => do some (Src.%s.%s ⟨← decOS m, ← decS q⟩)
 ''',
     '_some_str': '''  | ["%d", v] => do some (Src.%s.%s ⟨← decOS v⟩)
 ''',
